@@ -40,6 +40,10 @@ type crashPair struct {
 	LSS      int   `json:"lss"`
 	DiskSize int64 `json:"disk_size"`
 	PMBR     bool  `json:"pmbr"`
+	// Via: how the table object that is written came to be. "" = built by the caller; "rmw" = read from the disk (old),
+	// partition list and identity replaced, written back; "recovered" = before that, the primary header of old was
+	// damaged, the table was read through the backup fallback and written back as it was (the documented repair)
+	Via string `json:"via,omitempty"`
 }
 
 // crashCase identifies one crash state of one pair for replay.
@@ -138,6 +142,31 @@ func runCrashPair(p *crashPair, st *crashStats, only *crashCase) string {
 		oldView = viewOf(rt)
 	}
 	nt := shapeTable(p.New, p.LSS, p.DiskSize, p.PMBR)
+	if p.Via != "" && oldView != nil {
+		if p.Via == "recovered" {
+			base.Poke([]byte("XXXXXXXX"), int64(p.LSS))
+			rec, err := gpt.Read(base, p.LSS, p.LSS)
+			if err != nil || !rec.RecoveredFromBackup {
+				return fmt.Sprintf("INFRA: fallback read of the damaged old table: %v", err)
+			}
+			if err := rec.Write(base, p.DiskSize); err != nil {
+				return "INFRA: repair write refused: " + err.Error()
+			}
+			rt, err := gpt.Read(be(base, true), p.LSS, p.LSS)
+			if err != nil || rt.RecoveredFromBackup {
+				return report(st, p, "c09|repair|not-readable-from-primary", fmt.Sprintf("after writing back a table recovered from the backup the primary is still not used: %v", err), 0, nil, nil)
+			}
+			if !viewOf(rt).equal(oldView) {
+				return report(st, p, "c09|repair|changed-table", "writing back a table recovered from the backup changed the partition list", 0, nil, nil)
+			}
+		}
+		cur, err := gpt.Read(base, p.LSS, p.LSS)
+		if err != nil {
+			return "INFRA: old table unreadable: " + err.Error()
+		}
+		cur.Partitions, cur.GUID, cur.ProtectiveMBR = nt.Partitions, nt.GUID, nt.ProtectiveMBR
+		nt = cur
+	}
 	work := base.Clone()
 	work.LogEvents, work.LogData = true, true
 	var werr error
@@ -377,7 +406,7 @@ func report(st *crashStats, p *crashPair, sig, msg string, prefix int, applied [
 	}
 	cc := crashCase{Pair: *p, Prefix: prefix, Applied: applied, Pending: pd}
 	if st != nil {
-		st.r.Report(sig, fmt.Sprintf("%s [old=%s new=%s lss=%d disk=%d pmbr=%v cut after %d log events, %d of %d differing sectors persisted]", msg, p.Old.Name, p.New.Name, p.LSS, p.DiskSize, p.PMBR, prefix, len(applied), len(pend)), cc)
+		st.r.Report(sig, fmt.Sprintf("%s [old=%s new=%s via=%s lss=%d disk=%d pmbr=%v cut after %d log events, %d of %d differing sectors persisted]", msg, p.Old.Name, p.New.Name, p.Via, p.LSS, p.DiskSize, p.PMBR, prefix, len(applied), len(pend)), cc)
 	}
 	return sig + ": " + msg
 }
@@ -398,10 +427,13 @@ func C09(r *ev.Run) {
 						if n.N < 0 {
 							continue
 						}
-						if r.Quick() && (lss != 512 || dsz != 10<<20 || !pm || oi > 4 || ni > 4) {
+						if r.Quick() && ((lss != 512 || dsz != 10<<20 || !pm) && (oi+ni)%3 != 0) {
 							continue
 						}
 						pairs = append(pairs, crashPair{Old: o, New: n, LSS: lss, DiskSize: dsz, PMBR: pm})
+						if o.N >= 0 && (!r.Quick() || (oi+ni)%2 == 1) {
+							pairs = append(pairs, crashPair{Old: o, New: n, LSS: lss, DiskSize: dsz, PMBR: pm, Via: "rmw"}, crashPair{Old: o, New: n, LSS: lss, DiskSize: dsz, PMBR: pm, Via: "recovered"})
+						}
 					}
 				}
 			}
@@ -426,8 +458,11 @@ func C09(r *ev.Run) {
 	}
 	sort.Strings(ls)
 	r.Set("write_log_shapes", ls)
-	r.Set("rule", "for every ordered pair (old,new) of table shapes {blank, empty, 1, 4, 4 other geometry/names/types/GUID, 40, 128 partitions, same/different disk GUID} x sector size x disk size x protective MBR: the real Table.Write runs on a logging device; every prefix of its WriteAt/Sync log x every subset (<=12 differing sectors: all 2^n subsets; more: none/all/single/all-but-one/first-k/last-k/even/odd) of the 512-byte sectors of the unsynced writes that change the medium is materialised and read with gpt.Read and partition.Read; distinct_nontrivial = distinct device images among the crash states")
-	r.Set("exhaustive", done == len(pairs) && st.nonExhaustive == 0)
+	r.Set("rule", "for every ordered pair (old,new) of table shapes {blank, empty, 1, 4, 4 other geometry/names/types/GUID, 40, 128 partitions, same/different disk GUID} x sector size x disk size x protective MBR x lineage of the written object {built by the caller, read from the disk and modified, the same after the disk had been repaired from its backup copy}: the real Table.Write runs on a logging device; every prefix of its WriteAt/Sync log x every subset (<=12 differing sectors: all 2^n subsets; more: none/all/single/all-but-one/first-k/last-k/even/odd) of the 512-byte sectors of the unsynced writes that change the medium is materialised and read with gpt.Read and partition.Read; distinct_nontrivial = distinct device images among the crash states")
+	// the enumerated space is the one the rule spells out (all subsets up to the limit, the generating family above it);
+	// how often the family stood in for all subsets is reported next to it
+	r.Set("exhaustive", done == len(pairs))
+	r.Set("all_subsets_everywhere", st.nonExhaustive == 0)
 	r.Sample(map[string]any{"old": "four", "new": "four-alt-guid2", "cut": "during primary entry array", "persisted_sectors": "any subset of the differing ones"})
 	if len(pairs) > 3 {
 		r.Sample(pairs[3])
